@@ -8,6 +8,7 @@ The generated files Gen/RowsC07.lean / Gen/RowsC08.lean contain what the CURRENT
 `Props` proves those terms are instances of the parametric rows below.  Import-free.
 -/
 import WntrModel.Model.Expr
+import WntrModel.Model.RowsNorm
 namespace Wntr.Rows
 open Wntr.Aml
 
@@ -26,6 +27,7 @@ structure PddIx where
   pmin : Nat
   pnom : Nat
   elev : Nat
+  delta : Nat        -- `m.pdd_delta[j]`: the junction's smoothing band width (REPAIRED code: min(δ, (Preq−Pmin)/2))
   a1 : Nat
   b1 : Nat
   c1 : Nat
@@ -47,9 +49,10 @@ def eCubic (a b c d x : Expr) : Expr :=
   eAdd (eAdd (eAdd (eMul a (ePow x (.const 3))) (eMul b (ePow x (.const 2)))) (eMul c x)) d
 
 /-- `pdd_constraint.build`, the non-isolated case: the 5-branch ConditionalExpression of junction `ix`
-with smoothing `delta`, `slope` (python floats, hence constants) and the exponent chosen for the junction. -/
-def pddRow (ix : PddIx) (delta slope e : Rat) : Expr :=
+with the junction's band-width parameter, `slope` (a python float, hence a constant) and the exponent chosen for the junction. -/
+def pddRow (ix : PddIx) (slope e : Rat) : Expr :=
   let h : Expr := .var ix.head
+  let delta : Expr := .param ix.delta
   let d : Expr := .var ix.demand
   let D : Expr := .param ix.expected
   let pmin : Expr := .param ix.pmin
@@ -59,9 +62,9 @@ def pddRow (ix : PddIx) (delta slope e : Rat) : Expr :=
   condExpr [
     (.ineq (eSub p pmin) none (some 0),
       eSub d (eMul (eMul D (.const slope)) (eSub p pmin))),
-    (.ineq (eSub (eSub p pmin) (.const delta)) none (some 0),
+    (.ineq (eSub (eSub p pmin) delta) none (some 0),
       eSub d (eMul D (eCubic (.param ix.a1) (.param ix.b1) (.param ix.c1) (.param ix.d1) p))),
-    (.ineq (eAdd (eSub p pnom) (.const delta)) none (some 0),
+    (.ineq (eAdd (eSub p pnom) delta) none (some 0),
       eSub d (eMul D (ePow (eDiv (eSub p pmin) (eSub pnom pmin)) (.const e)))),
     (.ineq (eSub p pnom) none (some 0),
       eSub d (eMul D (eCubic (.param ix.a2) (.param ix.b2) (.param ix.c2) (.param ix.d2) p))),
@@ -78,23 +81,31 @@ structure PddZoo where
   ix : PddIx
   pminVal : Option Rat     -- value of `m.pmin[j]`
   pnomVal : Option Rat     -- value of `m.pnom[j]`
+  deltaVal : Option Rat    -- value of `m.pdd_delta[j]`
   row : Option Expr        -- `m.pdd[j]` (absent when isolated)
   deriving Repr, DecidableEq, Inhabited
 
 def PddIx.params (ix : PddIx) : List Nat :=
-  [ix.expected, ix.pmin, ix.pnom, ix.elev, ix.a1, ix.b1, ix.c1, ix.d1, ix.a2, ix.b2, ix.c2, ix.d2]
+  [ix.expected, ix.pmin, ix.pnom, ix.elev, ix.delta, ix.a1, ix.b1, ix.c1, ix.d1, ix.a2, ix.b2, ix.c2, ix.d2]
 def PddIx.vars (ix : PddIx) : List Nat := [ix.head, ix.demand]
 
 /-- the documented choice: the junction's own value when set, else the global option -/
 def choose (own : Option Rat) (glob : Rat) : Rat := own.getD glob
 
-/-- what the rows of the zoo must be, given ONLY the configuration (own overrides, global options) -/
+/-- the band width the REPAIRED `pdd_poly_coeffs_param` stores: the shipped `delta`, but never more than half of
+`Preq − Pmin`, so that the two smoothing bands cannot overlap -/
+def effDelta (delta pmin pnom : Rat) : Rat :=
+  if delta ≤ (pnom - pmin) / 2 then delta else (pnom - pmin) / 2
+
+/-- what the rows of the zoo must be, given ONLY the configuration (own overrides, global options).  The row is compared
+SEMANTICALLY (`Norm.rowSem`: polynomial normal form over atoms, branch by branch) with the parametric row. -/
 def PddZoo.ok (z : PddZoo) (delta slope gPmin gPnom gExp : Rat) : Bool :=
   if z.isolated then z.row == none
   else
-    z.row == some (pddRow z.ix delta slope (choose z.ownExp gExp)) &&
+    Norm.rowSemOpt z.row (some (pddRow z.ix slope (choose z.ownExp gExp))) &&
     z.pminVal == some (choose z.ownPmin gPmin) &&
-    z.pnomVal == some (choose z.ownPnom gPnom)
+    z.pnomVal == some (choose z.ownPnom gPnom) &&
+    z.deltaVal == some (effDelta delta (choose z.ownPmin gPmin) (choose z.ownPnom gPnom))
 
 /-- no leaf of junction `a`'s row is a leaf of junction `b`'s row -/
 def PddZoo.disjoint (a b : PddZoo) : Bool :=
@@ -190,16 +201,19 @@ def mentionsVar (i : Nat) : Expr → Bool
   | .ifElse c t e => mentionsVar i c || mentionsVar i t || mentionsVar i e
   | .ineq b _ _ => mentionsVar i b
 
-/-- what the zoo rows must be, given only (tank?, leak_status, isolated, mode, topology) -/
+/-- what the zoo rows must be, given only (tank?, leak_status, isolated, mode, topology); rows compared semantically
+(`Norm.rowSem`): the order of the link terms of a balance, `inequality(h, ub=elev)` vs `inequality(h-elev, ub=0)`, the order of
+the factors of `Cd*A*(2g(h-elev))**0.5` do not matter; a sign, a constant, a bound, a leaf does -/
 def LeakZoo.ok (z : LeakZoo) (delta slope twoG : Rat) : Bool :=
   let demandLeaf : Expr := if z.demandIsVar then .var z.demand else .param z.demand
   -- mass balance: junctions only, absent when isolated; mentions leak_rate iff leak_status
   (if z.tank || z.isolated then z.mb == none
-   else z.mb == some (mbRow demandLeaf z.inlets z.outlets (if z.leakStatus then some z.rate else none))) &&
+   else Norm.rowSemOpt z.mb (some (mbRow demandLeaf z.inlets z.outlets (if z.leakStatus then some z.rate else none)))) &&
   (z.demandIsVar == z.pdd) &&
   -- leak row exists iff leak_status ∧ ¬ isolated
   (if z.leakStatus && !z.isolated then
-     z.leakCon == some (leakRowG (leakCond1 z.tank z.h z.elev) z.h z.elev z.rate z.a z.b z.c z.d z.area z.cd delta slope twoG)
+     Norm.rowSemOpt z.leakCon
+       (some (leakRowG (leakCond1 z.tank z.h z.elev) z.h z.elev z.rate z.a z.b z.c z.d z.area z.cd delta slope twoG))
    else z.leakCon == none)
 
 section value
@@ -219,6 +233,74 @@ def storedLeak {α : Type} (zero : α) (tank leakStatus isolated : Bool) (rate :
 
 /-- `store_results_in_network`: tank demand = inflow − outflow − leak demand -/
 def storedTankDemand {α : Type} (sub : α → α → α) (inflow outflow leak : α) : α := sub (sub inflow outflow) leak
+
+end Wntr.Rows
+
+/-! ### the ModelUpdater registrations (`wntr/sim/models/utils.py`) for junction / tank rows and parameters
+
+`updater.add(node, attr, Definition.update)` makes `ModelUpdater.update(m, wn, node, attr)` re-run `Definition.build` for that
+one node from its CURRENT attributes; `update_model_for_controls` calls it for every `(node, attr)` the change tracker reports,
+`update_model_for_isolated_junctions_and_links` for every node whose `_is_isolated` flipped.  A Definition therefore shows the
+current configuration iff every attribute its `build` READS is registered for it. -/
+namespace Wntr.Rows
+
+/-- what `create_hydraulic_model` registered for one node of the zoo: `(attribute, Definition class)` pairs -/
+structure NodeRegs where
+  name : String
+  tank : Bool
+  regs : List (String × String)
+  deriving Repr, DecidableEq, Inhabited
+
+/-- which node attributes (of the vocabulary a control can change) the `build` of a Definition reads, recorded at run time on a
+junction (`tank = false`) or a tank -/
+structure DefReads where
+  cls : String
+  tank : Bool
+  reads : List String
+  deriving Repr, DecidableEq, Inhabited
+
+def subsetB (a b : List (String × String)) : Bool := a.all (fun x => b.contains x)
+
+/-- PDD: what decides a junction's `m.pdd[j]` row and the parameters it mentions -/
+def pddDeps : List (String × String) :=
+  [("_is_isolated", "pdd_constraint"), ("pressure_exponent", "pdd_constraint"),
+   ("minimum_pressure", "pmin_param"), ("required_pressure", "pnom_param"),
+   ("minimum_pressure", "pdd_poly_coeffs_param"), ("required_pressure", "pdd_poly_coeffs_param"),
+   ("pressure_exponent", "pdd_poly_coeffs_param"), ("elevation", "elevation_param")]
+
+/-- what decides a node's leak row and its parameters -/
+def leakDeps (tank : Bool) : List (String × String) :=
+  [("leak_status", "leak_constraint"), ("_is_isolated", "leak_constraint"),
+   ("leak_area", "leak_area_param"), ("leak_discharge_coeff", "leak_coeff_param"),
+   ("leak_area", "leak_poly_coeffs_param"), ("leak_discharge_coeff", "leak_poly_coeffs_param")] ++
+  (if tank then [] else [("elevation", "elevation_param")])
+
+/-- what decides a junction's mass-balance row -/
+def balanceDeps (pdd : Bool) : List (String × String) :=
+  let cls := if pdd then "pdd_mass_balance_constraint" else "mass_balance_constraint"
+  [("leak_status", cls), ("_is_isolated", cls)]
+
+/-- reads that are deliberately NOT registered: a tank's elevation is a constant of its leak row (`elev = node.elevation`,
+"a tank's head is a parameter of the model and its elevation is fixed") -/
+def unregisteredByDesign : List (String × Bool × String) := [("leak_constraint", true, "elevation")]
+
+/-- every attribute a Definition reads on a node of kind `tank` is registered for that Definition on zoo node `n` -/
+def readsRegistered (reads : List DefReads) (n : NodeRegs) : Bool :=
+  reads.all fun d =>
+    d.tank != n.tank || !(n.regs.any fun r => r.2 == d.cls) ||
+    d.reads.all fun a => n.regs.contains (a, d.cls) || unregisteredByDesign.contains (d.cls, d.tank, a)
+
+/-- abstract attribute values of one node -/
+abbrev Attrs := String → Int
+
+/-- the attributes (of vocabulary `vocab`) in which two configurations differ: what the change tracker / the isolation diff
+report between two model updates -/
+def changedAttrs (vocab : List String) (old cur : Attrs) : List String := vocab.filter (fun a => old a != cur a)
+
+/-- `update_model_for_controls` + `update_model_for_isolated_junctions_and_links` for ONE Definition of one node: it stays as
+built from `built` unless a changed attribute is registered for it; then it is rebuilt from the CURRENT attributes -/
+def updateDef (regs : List (String × String)) (cls : String) (vocab : List String) (built cur : Attrs) : Attrs :=
+  if (changedAttrs vocab built cur).any (fun a => regs.contains (a, cls)) then cur else built
 
 end Wntr.Rows
 
